@@ -198,6 +198,40 @@ func init() {
 			ss := stmtStrings(ex, cn.Body)
 			okCopyQ = nAssign == 1 && contains(ss, "m2.Question = make([]dns.Question, len(m.Question))") && contains(ss, "copy(m2.Question, m.Question)")
 		}
+		// cache.Exec stores only a response that is new since the rest of the chain ran (F16): `rBefore := qCtx.R()` is the
+		// statement immediately before `err := next.ExecNext(ctx, qCtx)`, the one call of saveRespToCache in Exec sits in
+		// `if r := qCtx.R(); r != nil && rBefore != r { ... }`, and rBefore is assigned nowhere else
+		okNew := false
+		if ce != nil {
+			var top []string
+			for _, st := range ce.Body.List {
+				top = append(top, ex.str(st))
+			}
+			iB, iN, iIf := indexOf(top, "rBefore := qCtx.R()"), indexOf(top, "err := next.ExecNext(ctx, qCtx)"), -1
+			for i, t := range top {
+				if strings.HasPrefix(t, "if r := qCtx.R(); r != nil && rBefore != r { saveRespToCache(msgKey, r, c.backend, c.args.LazyCacheTTL)") {
+					iIf = i
+				}
+			}
+			nSave, nAssign := 0, 0
+			for _, cs := range ex.calls(ce.Body) {
+				if cs == "saveRespToCache" {
+					nSave++
+				}
+			}
+			ast.Inspect(ce.Body, func(n ast.Node) bool {
+				if a, ok := n.(*ast.AssignStmt); ok {
+					for _, l := range a.Lhs {
+						if ex.str(l) == "rBefore" {
+							nAssign++
+						}
+					}
+				}
+				return true
+			})
+			okNew = iB >= 0 && iN == iB+1 && iIf == iN+1 && nSave == 1 && nAssign == 1
+		}
+		ex.setBool("c03CacheStoresOnlyNewResponse", okNew, ce != nil, "cache.Exec: rBefore := qCtx.R() immediately before next.ExecNext; the only saveRespToCache of Exec under `r != nil && rBefore != r`")
 		ex.setBool("c03CacheStoreCopiesQuestion", okCopyQ, cn != nil, "cache copyNoOpt: the stored message's Question slice is allocated (make + copy), the only assignment to it")
 		ex.setBool("c03UdpUnpackInReadLoop", okUDP, shapeUDP, "ServeUDP: the loop unpacks (*rb)[:n] into a fresh message before `go`; the handler goroutine (last statement of the loop body) refers to neither rb nor ob")
 		ex.setBool("c03LocalAnswersUseSetReply", okLocal, true, "hosts.LookupMsg, black_hole.Response, zone_file Reply, GenEmptyReply build their message with SetReply/SetRcode from the query")
